@@ -87,6 +87,12 @@ CLAIMS['C19'] = {
     'design': 'DESIGN.md section 5 C19',
 }
 
+CLAIMS['C07'] = {
+    'text': 'buffer_input (Chunk 8, any capacity <= 512) as a data structure against an abstract stream view, with the reader an oracle that may return any number 0..length of the next stream bytes (every short-read pattern) and 0 only at end of stream: require(amount), size(amount) and empty() keep the shape invariant buffer <= current <= end <= buffer+capacity, never move the cursor, keep the window equal to the stream segment (ghost probe index), pass the reader only ranges inside the buffer, and raise nothing but std::overflow_error, and only when amount does not fit behind the cursor. The clause "at least amount bytes or end of stream afterwards" fails for short reads: open known finding D7.',
+    'note': 'discard() (memmove), cstring_reader, istream/cstream readers, mmap/stdio file inputs and argv/string inputs are not under contract (OS and libc behaviour: trusted); interface equivalence with memory_input is argued from the shared accessor contracts (paper step).',
+    'design': 'DESIGN.md section 5 C07',
+}
+
 NOT_APPLICABLE = {
     'C14': 'language equality between a recursive grammar and RFC 8259 is not a per-function contract; json.hpp contains no function bodies (DESIGN.md section 5, C14)',
 }
